@@ -51,11 +51,11 @@ type Gates struct {
 }
 
 var (
-	curGates   atomic.Value // *Gates
-	retiredMu  sync.Mutex
-	retired    = map[string]bool{} // goroutine ids of earlier sessions' relay goroutines
-	installed  sync.Once
-	noGates    = &Gates{delayDir: -1}
+	curGates  atomic.Value // *Gates
+	retiredMu sync.Mutex
+	retired   = map[string]bool{} // goroutine ids of earlier sessions' relay goroutines
+	installed sync.Once
+	noGates   = &Gates{delayDir: -1}
 )
 
 func curGid() string {
